@@ -1,6 +1,7 @@
 (* Extract_re.v -- extraction of the regex.c / rset.c model to OCaml (ExtrOcamlBasic only). *)
 From Coq Require Import List NArith ZArith Extraction ExtrOcamlBasic.
-From NV Require Import Bytes GenConsts ReSyntax ReParse ReEmit ReVM RsetDefs.
+From NV Require Import Bytes GenConsts ReSyntax ReParse ReEmit ReVM RsetDefs ReStateDefs.
 Definition all_types : nat * N * Z := (0%nat, 0%N, 0%Z).
 Extraction "re_model.ml" all_types regcomp regexec rset_make rset_find rset_find_d rset_pattern re_groupcount
-  count zlen nlen emit_n parse_pat grpnum brk_len depth rset_shape ngroups parse_bad re_groupcount_opt somes.
+  count zlen nlen emit_n parse_pat grpnum brk_len depth rset_shape ngroups parse_bad re_groupcount_opt somes
+  session_gen session regcomp_st rset_make_st regcomp_seq rset_make_seq flag_after.
